@@ -30,21 +30,24 @@ type sendRec struct {
 }
 
 type st struct {
-	fault       string
-	dials       int
-	estIDs      []string
-	handled     []string
-	sends       []*sendRec
-	tapped      map[string]int // message id -> connection index on whose wire it appeared
-	closeErr    error
-	closeRet    bool
-	snap        bool
-	concurrent  bool
-	secondDown  bool
-	outage      bool
-	noTap       bool
-	outageUntil time.Duration
-	refused     int // dials refused during the outage
+	fault           string
+	dials           int
+	estIDs          []string
+	handled         []string
+	sends           []*sendRec
+	tapped          map[string]int // message id -> connection index on whose wire it appeared
+	closeErr        error
+	closeRet        bool
+	snap            bool
+	concurrent      bool
+	secondDown      bool
+	outage          bool
+	noTap           bool
+	outageUntil     time.Duration
+	refused         int // dials refused during the outage
+	refusing        bool
+	refuseUntil     time.Duration
+	refusedSessions int // sessions the server refused (unknown role) during the refusal window
 }
 
 func body(faultSet []string, useTLS, useWS bool) func(x *harness.X) {
@@ -54,7 +57,9 @@ func body(faultSet []string, useTLS, useWS bool) func(x *harness.X) {
 		x.Vars["st"] = s
 		s.fault = faultSet[rt.Choose(len(faultSet))]
 		s.concurrent = rt.Choose(2) == 1
-		s.outage = rt.Choose(2) == 1 // the server is unreachable for a while after the fault
+		env := rt.Choose(3) // after the fault the server is reachable at once / unreachable for 2 s / refusing sessions for 2 s
+		s.outage = env == 1
+		s.refusing = env == 2
 		// server
 		var srvTCP *lime.TCPConfig
 		if useTLS {
@@ -75,6 +80,18 @@ func body(faultSet []string, useTLS, useWS bool) func(x *harness.X) {
 		}
 		cfg.Backlog, cfg.ChannelBufferSize = 4, 1
 		cfg.Authenticate, cfg.Register = lib.GuestOK, lib.RegisterSame
+		if s.refusing {
+			cfg.Authenticate = func(ctx context.Context, id lime.Identity, a lime.Authentication) (*lime.AuthenticationResult, error) {
+				if s.refuseUntil > 0 && rt.Elapsed() < s.refuseUntil {
+					s.refusedSessions++
+					if s.refusedSessions <= 8 {
+						x.Obs("server refuses the session")
+					}
+					return lime.UnknownAuthenticationResult(), nil
+				}
+				return lime.MemberAuthenticationResult(), nil
+			}
+		}
 		cfg.Established = func(id string, c *lime.ServerChannel) {
 			s.estIDs = append(s.estIDs, id)
 			chans = append(chans, c)
@@ -195,6 +212,9 @@ func body(faultSet []string, useTLS, useWS bool) func(x *harness.X) {
 				_, _ = sconn.Write([]byte(`{"id":"big","type":"text/plain","content":"` + strings.Repeat("A", 700) + `"}` + "\n"))
 			}
 		}
+		if s.refusing {
+			s.refuseUntil = rt.Elapsed() + 2*time.Second // every new session is refused for 2s from now
+		}
 		if s.outage {
 			s.outageUntil = rt.Elapsed() + 2*time.Second // the server is unreachable for 2s from now
 		}
@@ -265,6 +285,9 @@ func final(x *harness.X, res *rt.Result) {
 	if s.outage {
 		tag += "/outage"
 	}
+	if s.refusing {
+		tag += "/refusing"
+	}
 	hist := fmt.Sprintf("[%s; %s]", tag, strings.Join(x.Log(), " | "))
 	if res.Crash != "" {
 		x.Failf("panic:"+res.CrashSite, "%s %s", strings.SplitN(res.Crash, "\n", 2)[0], hist)
@@ -285,6 +308,9 @@ func final(x *harness.X, res *rt.Result) {
 	}
 	// retry pacing: the unchanged client makes about five attempts in the 2 s outage (quadratic
 	// back-off from 100 ms); more than 30 attempts per second with nothing else to do is a busy loop
+	if s.refusedSessions > 60 {
+		x.Failf("retry-storm-refused:"+s.fault, "the client ran %d handshakes that the server refused within 2 s: it retries without pausing %s", s.refusedSessions, hist)
+	}
 	if s.refused > 60 {
 		x.Failf("retry-storm:"+s.fault, "the client dialled %d times during the 2 s outage: it retries without pausing %s", s.refused, hist)
 	}
@@ -337,7 +363,7 @@ func main() {
 	harness.Main(harness.Check{
 		Property: "C19",
 		Level:    "model_checking",
-		Rule:     "fault kind {server finish, server fail, abrupt close, connection reset, half-close, undecodable bytes, non-envelope JSON, envelope above twice the read limit} x moment {idle, concurrent with an application send} x {server reachable at once, dials refused for 2s during which an application send with a 300ms deadline times out} as data choices, the injection placed by the bounded scheduler (delay bounding); then one more application send and one server-to-client message on the newest session; real Client and Server over the real TCP transport on per-dial virtual pipes; distinct outcome = distinct observation log",
+		Rule:     "fault kind {server finish, server fail, abrupt close, connection reset, half-close, undecodable bytes, non-envelope JSON, envelope above twice the read limit} x moment {idle, concurrent with an application send} x {server reachable at once, dials refused for 2s during which an application send with a 300ms deadline times out, new sessions refused (unknown role) for 2s} as data choices, the injection placed by the bounded scheduler (delay bounding); then one more application send and one server-to-client message on the newest session; real Client and Server over the real TCP transport on per-dial virtual pipes; distinct outcome = distinct observation log",
 		Assume:   []string{"state pruning off (Client.channel is read outside its mutex)", "in-process clients are not explored here; the ws/faults scenario runs the client over WebSocket connections (gorilla, real opening handshake per dial over a virtual pipe; faults there also include a binary frame, a close frame and bytes that are no frame), where client frames are masked and the written-to-a-live-session clause is not evaluated; the tls/faults scenario runs the same over real TLS (negotiated per dial), where the wire tap cannot see message ids, so the written-to-a-live-session clause is not evaluated there; it runs the default schedule only (crypto/tls holds native mutexes across its I/O, so preempting inside it could block the whole simulation natively) with writes to a vanished peer failing as a reset", "a spinning goroutine is recognised by more than 8000 visible operations being executed while the virtual clock stands still (a whole handshake takes about 1500)"},
 		Scenarios: []harness.Scenario{
 			mk("all-faults", faults, 1, 2),
